@@ -267,14 +267,68 @@ def sites_of(F, inst):
                         out.append(s)
                 continue
             else:
+                why = graph_total(F, (r or {}).get("key"))
+                if why is True:
+                    continue    # no panic entry point, Assert terminator, opaque or indirect callee anywhere below it
                 s = Site(inst, bb, "unknown", path, (), t.get("span", ""))
-                s.status, s.how = "open", "callee %s is on neither the total nor the may-panic list (fail closed)" % path
+                s.status, s.how = "open", "callee %s is on neither the total nor the may-panic list and its instance graph is not panic-free (%s)" % (path, why)
                 out.append(s)
         elif k == "asm":
             s = Site(inst, bb, "asm", "inline asm", (), t.get("span", ""))
             s.status, s.how = "open", "inline asm"
             out.append(s)
     return out
+
+
+_GT = {}
+
+
+def graph_total(F, key):
+    """std callee outside the tables: True if nothing reachable from it in the instance graph can panic - no diverging
+    entry point of core::panicking & co, no Assert terminator, no body-less (precompiled) or unresolved/indirect callee
+    that is not itself on the total list.  Otherwise a short reason.  (Non-termination is not considered.)"""
+    if key is None:
+        return "unresolved"
+    ck = (id(F), key)
+    if ck in _GT:
+        return _GT[ck]
+    seen = set()
+    st = [key]
+    res = True
+    while st:
+        k = st.pop()
+        if k in seen:
+            continue
+        seen.add(k)
+        n = F.graph.get(k)
+        if n is None:
+            res = "no graph node for %s" % k[:80]
+            break
+        p = n.get("path", "")
+        if p.startswith(DIVERGING_PREFIXES):
+            res = "reaches %s" % p
+            break
+        if p in MAYPANIC:
+            res = "reaches %s" % p
+            break
+        if p.startswith(TOTAL_PREFIXES) or n.get("kind") == "intrinsic" and not p.startswith(("core::intrinsics::abort", "core::intrinsics::unreachable", "core::intrinsics::assert_")):
+            continue
+        if n.get("nomir") or n.get("norm_error"):
+            res = "opaque callee %s" % p
+            break
+        if n.get("asserts"):
+            res = "%s has %d Assert terminator(s)" % (p, n["asserts"])
+            break
+        for e in n.get("edges", []):
+            if "to" in e:
+                st.append(e["to"])
+            elif e.get("asm") or "indirect" in e or "unresolved" in e:
+                res = "indirect/unresolved call in %s" % p
+                break
+        if res is not True:
+            break
+    _GT[ck] = res
+    return res
 
 
 def infeasible(A, bb):
@@ -315,6 +369,9 @@ def discharge_maypanic(A, bb, path, args, t):
             # x.get(a..b) with constant b - a == N, reached through ok_or()? / unwrap
             if src[0] in ("try_ok", "unwrap"):
                 src = src[1]
+            # payload of the Some variant of x.get(a..b) (match / if let / `?` after INLINE)
+            if src[0] == "fld" and src[2] == 0 and src[1][0] == "dc" and src[1][2] == 1:
+                src = src[1][1]
             if src[0] == "call" and G.cn(src[1]) == "core::option::Option::ok_or":
                 src = src[2][0]
             if src[0] == "call" and G.cn(src[1]) == "core::slice::get":
